@@ -536,11 +536,19 @@ class MetaDispatchable(abc.ABCMeta):
             obj = _makeobj(ncls)
             obj.header = header
 
+            # how much should be left of the input once this packet's declared length has been consumed
+            # (a subpacket's length includes its type octet, which the header parser has already taken)
+            consumed_by_header = 1 if hasattr(header, 'critical') else int(hasattr(header, 'version'))
+            remainder = len(packet) - (header.length - consumed_by_header)
+
             try:
                 obj.parse(packet)
 
             except Exception as ex:
                 raise PGPError(str(ex)) from ex
+
+            if len(packet) != remainder and remainder >= 0:
+                raise PGPError("{:s} did not consume exactly its declared length".format(ncls.__name__))
 
         else:
             obj = _makeobj(cls)
